@@ -11,18 +11,18 @@ Open Scope bool_scope.
 Ltac numR' := cbn [nadd nsub nmul ndiv nsqrt nabs nneg nltb nleb neqb nofZ nofQ NumR].
 
 (* integer order facts as real order facts *)
+Ltac z2r_le a b H :=
+  lazymatch goal with _ : (IZR a <= IZR b)%R |- _ => fail | _ => pose proof (IZR_le a b H) end.
+Ltac z2r_lt a b H :=
+  lazymatch goal with _ : (IZR a < IZR b)%R |- _ => fail | _ => pose proof (IZR_lt a b H) end.
 Ltac z2r :=
   repeat match goal with
-  | H : (_ <= _ < _)%Z |- _ => destruct H
-  | H : (_ <= _ <= _)%Z |- _ => destruct H
-  | H : (_ < _ <= _)%Z |- _ => destruct H
-  | H : (_ < _ < _)%Z |- _ => destruct H
-  end;
-  repeat match goal with
-  | H : (?a <= ?b)%Z |- _ =>
-      lazymatch goal with _ : (IZR a <= IZR b)%R |- _ => fail | _ => pose proof (IZR_le a b H) end
-  | H : (?a < ?b)%Z |- _ =>
-      lazymatch goal with _ : (IZR a < IZR b)%R |- _ => fail | _ => pose proof (IZR_lt a b H) end
+  | H : (?a <= ?b)%Z |- _ => z2r_le a b H
+  | H : (?a < ?b)%Z |- _ => z2r_lt a b H
+  | H : (?a <= ?b)%Z /\ _ |- _ => z2r_le a b (proj1 H)
+  | H : (?a < ?b)%Z /\ _ |- _ => z2r_lt a b (proj1 H)
+  | H : _ /\ (?a <= ?b)%Z |- _ => z2r_le a b (proj2 H)
+  | H : _ /\ (?a < ?b)%Z |- _ => z2r_lt a b (proj2 H)
   end;
   rewrite ?plus_IZR, ?minus_IZR in *.
 Ltac rabs :=
@@ -177,36 +177,36 @@ Definition Corner (i j : Z) : Prop := zsi <= i <= zsi + 1 /\ xsi <= j <= xsi + 1
 
 (* `P` is the set of nodes that hold the analytic time; all the others still hold `Big`.  Sign array (when
    `grad`): the nodes of `P` outside the source cell carry the signs of the loop that wrote them. *)
-Definition Desc (grad : bool) (P : Z -> Z -> Prop) (tt : arr R) (sg : arr Z) : Prop :=
+Definition Desc (trk grad : bool) (P : Z -> Z -> Prop) (tt : arr R) (sg : arr Z) : Prop :=
   wf tt /\ shape tt = [nz; nx] /\
   (forall i j, 0 <= i < nz -> 0 <= j < nx -> P i j \/ ~ P i j) /\
   (forall i j, 0 <= i < nz -> 0 <= j < nx ->
      (P i j -> get 0%R tt [i; j] = ta i j) /\ (~ P i j -> get 0%R tt [i; j] = Big)) /\
-  (grad = true -> wf sg /\ shape sg = [nz; nx; 2] /\
+  (trk = true -> grad = true /\ wf sg /\ shape sg = [nz; nx; 2] /\
      forall i j, 0 <= i < nz -> 0 <= j < nx -> P i j -> ~ Corner i j ->
        get 0 sg [i; j; 0] = sgn_of zsi i /\ get 0 sg [i; j; 1] = sgn_of xsi j).
 
-Lemma Desc_ext grad P Q tt sg :
-  Desc grad P tt sg -> (forall i j, 0 <= i < nz -> 0 <= j < nx -> (P i j <-> Q i j)) -> Desc grad Q tt sg.
+Lemma Desc_ext trk grad P Q tt sg :
+  Desc trk grad P tt sg -> (forall i j, 0 <= i < nz -> 0 <= j < nx -> (P i j <-> Q i j)) -> Desc trk grad Q tt sg.
 Proof.
   intros (W & S & Dec & Hget & Hsg) E.
   split; [exact W|]. split; [exact S|]. split; [|split].
   - intros i j Hi Hj. destruct (Dec i j Hi Hj); [left|right]; rewrite <- (E i j Hi Hj); assumption.
   - intros i j Hi Hj. destruct (Hget i j Hi Hj) as [G1 G2]. rewrite <- (E i j Hi Hj). split; assumption.
-  - intros Hg. destruct (Hsg Hg) as (Ws & Ss & Hs). split; [exact Ws|]. split; [exact Ss|].
+  - intros Hg. destruct (Hsg Hg) as (Eg & Ws & Ss & Hs). split; [exact Eg|]. split; [exact Ws|]. split; [exact Ss|].
     intros i j Hi Hj HQ. apply Hs; auto. apply (E i j Hi Hj), HQ.
 Qed.
 
-Lemma Desc_val grad P tt sg i j :
-  Desc grad P tt sg -> 0 <= i < nz -> 0 <= j < nx -> get 0%R tt [i; j] = ta i j \/ get 0%R tt [i; j] = Big.
+Lemma Desc_val trk grad P tt sg i j :
+  Desc trk grad P tt sg -> 0 <= i < nz -> 0 <= j < nx -> get 0%R tt [i; j] = ta i j \/ get 0%R tt [i; j] = Big.
 Proof.
   intros (_ & _ & Dec & Hget & _) Hi Hj. destruct (Hget i j Hi Hj) as [G1 G2].
   destruct (Dec i j Hi Hj); [left|right]; auto.
 Qed.
 
 (* the condition of a block in terms of the description *)
-Lemma Desc_cond grad P tt sg i j (d : R) :
-  Desc grad P tt sg -> 0 <= i < nz -> 0 <= j < nx ->
+Lemma Desc_cond trk grad P tt sg i j (d : R) :
+  Desc trk grad P tt sg -> 0 <= i < nz -> 0 <= j < nx ->
   (Rltb 0 d && Rltb (get 0%R tt [i; j]) Big = true <-> (0 < d)%R /\ P i j /\ (ta i j < Big)%R).
 Proof.
   intros (_ & _ & Dec & Hget & _) Hi Hj. destruct (Hget i j Hi Hj) as [G1 G2].
@@ -219,10 +219,10 @@ Lemma idx2_neq (i j a b : Z) : [i; j] <> [a; b] -> ~ (a = i /\ b = j).
 Proof. intros N [-> ->]. apply N. reflexivity. Qed.
 
 (* the effect of one block on the description *)
-Lemma Desc_update grad P tt sg i j (c : bool) (Q : Prop) sgz sgx :
-  Desc grad P tt sg -> 0 <= i < nz -> 0 <= j < nx -> (c = true <-> Q) ->
+Lemma Desc_update trk grad P tt sg i j (c : bool) (Q : Prop) sgz sgx :
+  Desc trk grad P tt sg -> 0 <= i < nz -> 0 <= j < nx -> (c = true <-> Q) ->
   sgz = sgn_of zsi i -> sgx = sgn_of xsi j ->
-  Desc grad (fun a b => P a b \/ (a = i /\ b = j /\ Q))
+  Desc trk grad (fun a b => P a b \/ (a = i /\ b = j /\ Q))
     (if c then set tt [i; j] (ta i j) else tt)
     (if c then (if grad then set (set sg [i; j; 0] sgz) [i; j; 1] sgx else sg) else sg).
 Proof.
@@ -242,7 +242,7 @@ Proof.
         destruct (Hget a b Ha Hb) as [G1 G2]. apply idx2_neq in N. split.
         -- intros [Y|(Ea & Eb & _)]; [exact (G1 Y) | exfalso; apply N; auto].
         -- intros Hn. apply G2. intros Y. apply Hn. left. exact Y.
-    + intros Hg. destruct (Hsg Hg) as (Ws & Ss & Hs). rewrite Hg.
+    + intros Hg. destruct (Hsg Hg) as (Eg & Ws & Ss & Hs). rewrite Eg. split; [reflexivity|].
       assert (J0 : inb sg [i; j; 0] = true) by (eapply inb3_true; eauto; lia).
       assert (J1 : inb sg [i; j; 1] = true) by (eapply inb3_true; eauto; lia).
       split; [apply wf_set, wf_set, Ws|]. split; [exact Ss|].
@@ -260,7 +260,7 @@ Proof.
         { intros k k' E. apply N. injection E as -> -> _. reflexivity. }
         rewrite !get_set_other; rewrite ?inb_set; auto.
   - assert (HQ : ~ Q) by (intros q; apply HcQ in q; discriminate q).
-    apply (Desc_ext grad P); [exact D|]. intros a b _ _. tauto.
+    apply (Desc_ext trk grad P); [exact D|]. intros a b _ _. tauto.
 Qed.
 
 (* ---------- the sets written by the four loops ---------- *)
@@ -281,15 +281,15 @@ Definition DownSet (i j : Z) : Prop := ColOK j /\ zsi + 2 <= i /\ (ta (i - 1) j 
 Definition UpSet (i j : Z) : Prop := ColOK j /\ i <= zsi - 1 /\ (ta (i + 1) j < Big)%R.
 
 (* ---------- east ---------- *)
-Definition InvE grad M (P0 : Z -> Z -> Prop) (k : Z) (st : arr R * arr R * arr Z) : Prop :=
+Definition InvE trk grad M (P0 : Z -> Z -> Prop) (k : Z) (st : arr R * arr R * arr Z) : Prop :=
   wf (fst (fst st)) /\ shape (fst (fst st)) = [M] /\
   get 0%R (fst (fst st)) [k - 1] = (vzero * (IZR (k - 1) - xsa) * dx)%R /\
-  Desc grad (fun a b => P0 a b \/ (EastSet a b /\ b < k)) (snd (fst st)) (snd st).
+  Desc trk grad (fun a b => P0 a b \/ (EastSet a b /\ b < k)) (snd (fst st)) (snd st).
 
-Lemma east_step grad M (P0 : Z -> Z -> Prop) k st :
+Lemma east_step trk grad M (P0 : Z -> Z -> Prop) k st :
   nx <= M -> xsi + 2 <= k < nx -> P0 (zsi + 1) (xsi + 1) -> P0 zsi (xsi + 1) ->
-  InvE grad M P0 k st ->
-  InvE grad M P0 (k + 1) (east_body dx dz grad slow vzero xsa zsa zsi dzu dzd (1 / dx)%R (1 / dx / dx)%R k st).
+  InvE trk grad M P0 k st ->
+  InvE trk grad M P0 (k + 1) (east_body dx dz grad slow vzero xsa zsa zsi dzu dzd (1 / dx)%R (1 / dx / dx)%R k st).
 Proof.
   intros HM Hk A1 A2. destruct st as [[td tt] sg]. unfold InvE. cbn [fst snd]. intros (W & S & Htd & D).
   cbv beta zeta delta [east_body]. cbn [fst snd].
@@ -313,19 +313,19 @@ Proof.
   assert (Hsx : (0 <= IZR 1 * (IZR k - xsa))%R) by lra.
   (* first block: line zsi + 1 *)
   rewrite (blk_x_eq grad (1 / dx)%R (1 / dx / dx)%R (zsi + 1) dzd 1 1 (k - 1) k tdn tt sg Hdxi
-             ltac:(rewrite plus_IZR; lra) Hsx Hmono Htdn (Desc_val _ _ _ _ _ _ D ltac:(lia) ltac:(lia))).
+             ltac:(rewrite plus_IZR; lra) Hsx Hmono Htdn (Desc_val trk grad _ tt sg (zsi + 1) (k - 1) D ltac:(lia) ltac:(lia))).
   cbv zeta. cbn [fst snd].
-  pose proof (Desc_update grad _ tt sg (zsi + 1) k _ _ 1 1 D ltac:(lia) ltac:(lia)
-                (Desc_cond grad _ tt sg (zsi + 1) (k - 1) dzd D ltac:(lia) ltac:(lia))
+  pose proof (Desc_update trk grad _ tt sg (zsi + 1) k _ _ 1 1 D ltac:(lia) ltac:(lia)
+                (Desc_cond trk grad _ tt sg (zsi + 1) (k - 1) dzd D ltac:(lia) ltac:(lia))
                 ltac:(unfold sgn_of; destruct (Z.leb_spec (zsi + 1) zsi); lia)
                 ltac:(unfold sgn_of; destruct (Z.leb_spec k xsi); lia)) as D1.
-  match type of D1 with Desc _ _ ?t1 ?s1 => set (tt1 := t1) in *; set (sg1 := s1) in * end.
+  match type of D1 with Desc _ _ _ ?t1 ?s1 => set (tt1 := t1) in *; set (sg1 := s1) in * end.
   (* second block: line zsi *)
   rewrite (blk_x_eq grad (1 / dx)%R (1 / dx / dx)%R zsi dzu (-1) 1 (k - 1) k tdn tt1 sg1 Hdxi
-             ltac:(lra) Hsx Hmono Htdn (Desc_val _ _ _ _ _ _ D1 ltac:(lia) ltac:(lia))).
+             ltac:(lra) Hsx Hmono Htdn (Desc_val trk grad _ tt1 sg1 zsi (k - 1) D1 ltac:(lia) ltac:(lia))).
   cbv zeta. cbn [fst snd].
-  pose proof (Desc_update grad _ tt1 sg1 zsi k _ _ (-1) 1 D1 ltac:(lia) ltac:(lia)
-                (Desc_cond grad _ tt1 sg1 zsi (k - 1) dzu D1 ltac:(lia) ltac:(lia))
+  pose proof (Desc_update trk grad _ tt1 sg1 zsi k _ _ (-1) 1 D1 ltac:(lia) ltac:(lia)
+                (Desc_cond trk grad _ tt1 sg1 zsi (k - 1) dzu D1 ltac:(lia) ltac:(lia))
                 ltac:(unfold sgn_of; destruct (Z.leb_spec zsi zsi); lia)
                 ltac:(unfold sgn_of; destruct (Z.leb_spec k xsi); lia)) as D2.
   split; [apply wf_set, W|]. split; [exact S|]. split.
@@ -341,7 +341,7 @@ Proof.
                       P0 r (k - 1) \/ (EastSet r (k - 1) /\ k - 1 < k)).
     { intros r Hc Hr Ht. destruct (Z.eq_dec (k - 1) (xsi + 1)) as [E|N]; [left; rewrite E; exact Hc|].
       right. split; [|lia]. split; [exact Hr|]. split; [lia|]. apply Mo; [exact Ht | lia]. }
-    unfold EastSet at 2. unfold RowOK at 2. split.
+    split.
     + intros [[Y|(-> & -> & Q1 & _ & Q3)]|(-> & -> & Q1 & _ & Q3)].
       * destruct Y as [Y|[Y Y']]; [left; exact Y | right; split; [exact Y | lia]].
       * right. split; [|lia]. split; [left; auto|]. split; [lia | exact Q3].
@@ -352,4 +352,523 @@ Proof.
       * left. right. repeat (split; auto). apply Reach; auto. left; auto.
       * right. repeat (split; auto). left. apply Reach; auto. right; auto.
 Qed.
+
+(* a loop over the image of an ascending range, with an invariant that depends on the position *)
+Lemma for_list_pos {St} (I : Z -> St -> Prop) (b : Z -> St -> St) (f : Z -> Z) n :
+  forall a s, I a s ->
+    (forall p x, a <= p < a + Z.of_nat n -> I p x -> I (p + 1) (b (f p) x)) ->
+    I (a + Z.of_nat n) (for_list (map f (upto a n)) b s).
+Proof.
+  induction n as [|n IH]; intros a s H0 Hs.
+  - cbn. replace (a + 0) with a by lia. exact H0.
+  - rewrite upto_S. cbn [map]. rewrite for_list_cons.
+    replace (a + Z.of_nat (S n)) with ((a + 1) + Z.of_nat n) by lia.
+    apply IH; [apply Hs; [lia | exact H0] | intros p x Hp; apply Hs; lia].
+Qed.
+
+Lemma east_phase_desc trk grad M (P0 : Z -> Z -> Prop) td tt sg :
+  wf td -> shape td = [M] -> nx <= M -> P0 (zsi + 1) (xsi + 1) -> P0 zsi (xsi + 1) ->
+  Desc trk grad P0 tt sg ->
+  let r := east_phase dx dz grad nx slow vzero xsa xsi zsa zsi dzu dzd dxe (td, tt, sg) in
+  wf (fst (fst r)) /\ shape (fst (fst r)) = [M] /\
+  Desc trk grad (fun a b => P0 a b \/ EastSet a b) (snd (fst r)) (snd r).
+Proof.
+  intros W S HM A1 A2 D r. subst r. unfold east_phase. cbv zeta. cbn [fst snd].
+  rewrite pyrange_up. set (n := Z.to_nat (nx - (xsi + 2))).
+  match goal with |- context [for_list _ ?b ?s] =>
+    pose proof (for_list_pos (InvE trk grad M P0) b (fun x => x) n (xsi + 2) s) as L end.
+  rewrite map_id in L. replace (xsi + 2 + Z.of_nat n) with nx in L by lia.
+  destruct L as (W' & S' & _ & D').
+  - unfold InvE. cbn [fst snd]. split; [apply wf_set, W|]. split; [exact S|]. split.
+    + replace (xsi + 2 - 1) with (xsi + 1) by lia.
+      rewrite (get1_set_same td M (xsi + 1) _ W S ltac:(lia)). numR'. rewrite Hdxe, plus_IZR. ring.
+    + eapply Desc_ext; [exact D|]. intros a b _ _. split; [tauto|].
+      intros [Y|[(_ & Y & _) Y']]; [exact Y | lia].
+  - intros p x Hp Hx. apply east_step; auto; lia.
+  - split; [exact W'|]. split; [exact S'|]. eapply Desc_ext; [exact D'|].
+    intros a b _ Hb. cbv beta. split; [tauto|]. intros [Y|Y]; [left; exact Y | right; split; [exact Y | lia]].
+Qed.
+
+(* ---------- west ---------- *)
+Definition InvW trk grad M (P0 : Z -> Z -> Prop) (k : Z) (st : arr R * arr R * arr Z) : Prop :=
+  wf (fst (fst st)) /\ shape (fst (fst st)) = [M] /\
+  get 0%R (fst (fst st)) [k + 1] = (vzero * (xsa - IZR (k + 1)) * dx)%R /\
+  Desc trk grad (fun a b => P0 a b \/ (WestSet a b /\ k < b)) (snd (fst st)) (snd st).
+
+Lemma west_step trk grad M (P0 : Z -> Z -> Prop) k st :
+  nx <= M -> 0 <= k <= xsi - 1 -> P0 (zsi + 1) xsi -> P0 zsi xsi ->
+  InvW trk grad M P0 k st ->
+  InvW trk grad M P0 (k - 1) (west_body dx dz grad slow vzero xsa zsa zsi dzu dzd (1 / dx)%R (1 / dx / dx)%R k st).
+Proof.
+  intros HM Hk A1 A2. destruct st as [[td tt] sg]. unfold InvW. cbn [fst snd]. intros (W & S & Htd & D).
+  cbv beta zeta delta [west_body]. cbn [fst snd].
+  change (@nofZ R NumR 0) with 0%R.
+  rewrite (Hslow zsi k) by lia.
+  set (v := nadd (get 0%R td [k + 1]) (nmul dx vzero)).
+  rewrite (get1_set_same td M k v W S ltac:(lia)).
+  rewrite (get1_set_other td M k (k + 1) v S ltac:(lia) ltac:(lia) ltac:(lia)).
+  assert (Kx : (IZR k + 1 <= IZR xsi)%R) by (z2r; lra).
+  assert (Ev : v = (vzero * Rabs (IZR k - xsa) * dx)%R).
+  { unfold v. numR'. rewrite Htd, plus_IZR. rabs. ring. }
+  assert (T1 : nsub v (nmul (nmul vzero (nabs (nsub (nofZ k) xsa))) dx) = 0%R) by (rewrite Ev; numR'; ring).
+  assert (T2 : nsub (get 0%R td [k + 1]) (nmul (nmul vzero (nabs (nadd (nsub (nofZ k) xsa) (nofZ 1)))) dx) = 0%R).
+  { rewrite Htd, plus_IZR. numR'. rabs. ring. }
+  rewrite T1, T2.
+  set (tdn := set td [k] v).
+  assert (Htdn : get 0%R tdn [k] = (vzero * Rabs (IZR k - xsa) * dx)%R).
+  { unfold tdn. rewrite (get1_set_same td M k v W S ltac:(lia)). exact Ev. }
+  assert (Hdxi : (0 <= 1 / dx)%R) by (unfold Rdiv; rewrite Rmult_1_l; left; apply Rinv_0_lt_compat; exact Hdx).
+  assert (Hmono : (Rabs (IZR (k + 1) - xsa) <= Rabs (IZR k - xsa))%R) by (rewrite plus_IZR; rabs; lra).
+  assert (Hsx : (0 <= IZR (-1) * (IZR k - xsa))%R) by lra.
+  (* first block: line zsi + 1 *)
+  rewrite (blk_x_eq grad (1 / dx)%R (1 / dx / dx)%R (zsi + 1) dzd 1 (-1) (k + 1) k tdn tt sg Hdxi
+             ltac:(rewrite plus_IZR; lra) Hsx Hmono Htdn (Desc_val trk grad _ tt sg (zsi + 1) (k + 1) D ltac:(lia) ltac:(lia))).
+  cbv zeta. cbn [fst snd].
+  pose proof (Desc_update trk grad _ tt sg (zsi + 1) k _ _ 1 (-1) D ltac:(lia) ltac:(lia)
+                (Desc_cond trk grad _ tt sg (zsi + 1) (k + 1) dzd D ltac:(lia) ltac:(lia))
+                ltac:(unfold sgn_of; destruct (Z.leb_spec (zsi + 1) zsi); lia)
+                ltac:(unfold sgn_of; destruct (Z.leb_spec k xsi); lia)) as D1.
+  match type of D1 with Desc _ _ _ ?t1 ?s1 => set (tt1 := t1) in *; set (sg1 := s1) in * end.
+  (* second block: line zsi *)
+  rewrite (blk_x_eq grad (1 / dx)%R (1 / dx / dx)%R zsi dzu (-1) (-1) (k + 1) k tdn tt1 sg1 Hdxi
+             ltac:(lra) Hsx Hmono Htdn (Desc_val trk grad _ tt1 sg1 zsi (k + 1) D1 ltac:(lia) ltac:(lia))).
+  cbv zeta. cbn [fst snd].
+  pose proof (Desc_update trk grad _ tt1 sg1 zsi k _ _ (-1) (-1) D1 ltac:(lia) ltac:(lia)
+                (Desc_cond trk grad _ tt1 sg1 zsi (k + 1) dzu D1 ltac:(lia) ltac:(lia))
+                ltac:(unfold sgn_of; destruct (Z.leb_spec zsi zsi); lia)
+                ltac:(unfold sgn_of; destruct (Z.leb_spec k xsi); lia)) as D2.
+  split; [apply wf_set, W|]. split; [exact S|]. split.
+  - replace (k - 1 + 1) with k by lia. fold tdn. rewrite Htdn. rabs. ring.
+  - eapply Desc_ext; [exact D2|]. clear D D1 D2 tt1 sg1.
+    intros a b Ha Hb. cbv beta.
+    assert (Mo : forall r, (ta r (k + 1) < Big)%R -> k + 1 <= xsi - 1 -> (ta r (k + 1 + 1) < Big)%R).
+    { intros r Hr Hq. eapply Rle_lt_trans; [|exact Hr]. apply t_ana_mono_x; [exact Hv|].
+      assert (IZR (k + 1) <= IZR xsi - 1)%R by (apply IZR_le in Hq; rewrite minus_IZR in Hq; exact Hq).
+      rewrite (plus_IZR (k + 1) 1). rabs. lra. }
+    assert (Reach : forall r, P0 r xsi -> RowOK r -> (ta r (k + 1) < Big)%R ->
+                      P0 r (k + 1) \/ (WestSet r (k + 1) /\ k < k + 1)).
+    { intros r Hc Hr Ht. destruct (Z.eq_dec (k + 1) xsi) as [E|N]; [left; rewrite E; exact Hc|].
+      right. split; [|lia]. split; [exact Hr|]. split; [lia|]. apply Mo; [exact Ht | lia]. }
+    split.
+    + intros [[Y|(-> & -> & Q1 & _ & Q3)]|(-> & -> & Q1 & _ & Q3)].
+      * destruct Y as [Y|[Y Y']]; [left; exact Y | right; split; [exact Y | lia]].
+      * right. split; [|lia]. split; [left; auto|]. split; [lia | exact Q3].
+      * right. split; [|lia]. split; [right; auto|]. split; [lia | exact Q3].
+    + intros [Y|[(Hr & Hj & Ht) Hlt]]; [left; left; left; exact Y|].
+      destruct (Z.eq_dec b k) as [->|Nb]; [|left; left; right; split; [split; auto | lia]].
+      destruct Hr as [[-> Hd]|[-> Hd]].
+      * left. right. repeat (split; auto). apply Reach; auto. left; auto.
+      * right. repeat (split; auto). left. apply Reach; auto. right; auto.
+Qed.
+
+Lemma west_phase_desc trk grad M (P0 : Z -> Z -> Prop) td tt sg :
+  wf td -> shape td = [M] -> nx <= M -> P0 (zsi + 1) xsi -> P0 zsi xsi ->
+  Desc trk grad P0 tt sg ->
+  let r := west_phase dx dz grad slow vzero xsa xsi zsa zsi dzu dzd dxw (td, tt, sg) in
+  wf (fst (fst r)) /\ shape (fst (fst r)) = [M] /\
+  Desc trk grad (fun a b => P0 a b \/ WestSet a b) (snd (fst r)) (snd r).
+Proof.
+  intros W S HM A1 A2 D r. subst r. unfold west_phase. cbv zeta. cbn [fst snd].
+  rewrite (pyrange_down (xsi - 1) (xsi - 1)). replace (xsi - 1 - (xsi - 1)) with 0 by lia.
+  set (n := Z.to_nat (xsi - 1 + 1)).
+  match goal with |- context [for_list _ ?b ?s] =>
+    pose proof (for_list_pos (fun q => InvW trk grad M P0 (xsi - 1 - q)) b (fun i => xsi - 1 - i) n 0 s) as L end.
+  cbv beta in L. replace (xsi - 1 - (0 + Z.of_nat n)) with (-1) in L by lia.
+  destruct L as (W' & S' & _ & D').
+  - unfold InvW. cbn [fst snd]. split; [apply wf_set, W|]. split; [exact S|]. split.
+    + replace (xsi - 1 - 0 + 1) with xsi by lia.
+      rewrite (get1_set_same td M xsi _ W S ltac:(lia)). numR'. rewrite Hdxw. ring.
+    + eapply Desc_ext; [exact D|]. intros a b _ _. split; [tauto|].
+      intros [Y|[(_ & Y & _) Y']]; [exact Y | lia].
+  - intros p x Hp Hx. replace (xsi - 1 - (p + 1)) with (xsi - 1 - p - 1) by lia. apply west_step; auto; lia.
+  - split; [exact W'|]. split; [exact S'|]. eapply Desc_ext; [exact D'|].
+    intros a b _ Hb. cbv beta. split; [tauto|]. intros [Y|Y]; [left; exact Y | right; split; [exact Y | lia]].
+Qed.
+
+(* ---------- down ---------- *)
+Definition InvD trk grad M (P0 : Z -> Z -> Prop) (k : Z) (st : arr R * arr R * arr Z) : Prop :=
+  wf (fst (fst st)) /\ shape (fst (fst st)) = [M] /\
+  get 0%R (fst (fst st)) [k - 1] = (vzero * (IZR (k - 1) - zsa) * dz)%R /\
+  Desc trk grad (fun a b => P0 a b \/ (DownSet a b /\ a < k)) (snd (fst st)) (snd st).
+
+Lemma down_step trk grad M (P0 : Z -> Z -> Prop) k st :
+  nz <= M -> zsi + 2 <= k < nz -> P0 (zsi + 1) (xsi + 1) -> P0 (zsi + 1) xsi ->
+  InvD trk grad M P0 k st ->
+  InvD trk grad M P0 (k + 1) (down_body dx dz grad slow vzero xsa zsa xsi dxw dxe (1 / dz)%R (1 / dz / dz)%R k st).
+Proof.
+  intros HM Hk A1 A2. destruct st as [[td tt] sg]. unfold InvD. cbn [fst snd]. intros (W & S & Htd & D).
+  cbv beta zeta delta [down_body]. cbn [fst snd].
+  change (@nofZ R NumR 0) with 0%R.
+  rewrite (Hslow (k - 1) xsi) by lia.
+  set (v := nadd (get 0%R td [k - 1]) (nmul dz vzero)).
+  rewrite (get1_set_same td M k v W S ltac:(lia)).
+  rewrite (get1_set_other td M k (k - 1) v S ltac:(lia) ltac:(lia) ltac:(lia)).
+  assert (Kx : (IZR zsi + 2 <= IZR k)%R) by (z2r; lra).
+  assert (Ev : v = (vzero * Rabs (IZR k - zsa) * dz)%R).
+  { unfold v. numR'. rewrite Htd, minus_IZR. rabs. ring. }
+  assert (T1 : nsub v (nmul (nmul vzero (nabs (nsub (nofZ k) zsa))) dz) = 0%R) by (rewrite Ev; numR'; ring).
+  assert (T2 : nsub (get 0%R td [k - 1]) (nmul (nmul vzero (nabs (nsub (nsub (nofZ k) zsa) (nofZ 1)))) dz) = 0%R).
+  { rewrite Htd, minus_IZR. numR'. rabs. ring. }
+  rewrite T1, T2.
+  set (tdn := set td [k] v).
+  assert (Htdn : get 0%R tdn [k] = (vzero * Rabs (IZR k - zsa) * dz)%R).
+  { unfold tdn. rewrite (get1_set_same td M k v W S ltac:(lia)). exact Ev. }
+  assert (Hdzi : (0 <= 1 / dz)%R) by (unfold Rdiv; rewrite Rmult_1_l; left; apply Rinv_0_lt_compat; exact Hdz).
+  assert (Hmono : (Rabs (IZR (k - 1) - zsa) <= Rabs (IZR k - zsa))%R) by (rewrite minus_IZR; rabs; lra).
+  assert (Hsz : (0 <= IZR 1 * (IZR k - zsa))%R) by lra.
+  (* first block: line xsi + 1 *)
+  rewrite (blk_z_eq grad (1 / dz)%R (1 / dz / dz)%R (xsi + 1) dxe 1 1 (k - 1) k tdn tt sg Hdzi
+             Hsz ltac:(rewrite plus_IZR; lra) Hmono Htdn (Desc_val trk grad _ tt sg (k - 1) (xsi + 1) D ltac:(lia) ltac:(lia))).
+  cbv zeta. cbn [fst snd].
+  pose proof (Desc_update trk grad _ tt sg k (xsi + 1) _ _ 1 1 D ltac:(lia) ltac:(lia)
+                (Desc_cond trk grad _ tt sg (k - 1) (xsi + 1) dxe D ltac:(lia) ltac:(lia))
+                ltac:(unfold sgn_of; destruct (Z.leb_spec k zsi); lia)
+                ltac:(unfold sgn_of; destruct (Z.leb_spec (xsi + 1) xsi); lia)) as D1.
+  match type of D1 with Desc _ _ _ ?t1 ?s1 => set (tt1 := t1) in *; set (sg1 := s1) in * end.
+  (* second block: line xsi *)
+  rewrite (blk_z_eq grad (1 / dz)%R (1 / dz / dz)%R xsi dxw 1 (-1) (k - 1) k tdn tt1 sg1 Hdzi
+             Hsz ltac:(lra) Hmono Htdn (Desc_val trk grad _ tt1 sg1 (k - 1) xsi D1 ltac:(lia) ltac:(lia))).
+  cbv zeta. cbn [fst snd].
+  pose proof (Desc_update trk grad _ tt1 sg1 k xsi _ _ 1 (-1) D1 ltac:(lia) ltac:(lia)
+                (Desc_cond trk grad _ tt1 sg1 (k - 1) xsi dxw D1 ltac:(lia) ltac:(lia))
+                ltac:(unfold sgn_of; destruct (Z.leb_spec k zsi); lia)
+                ltac:(unfold sgn_of; destruct (Z.leb_spec xsi xsi); lia)) as D2.
+  split; [apply wf_set, W|]. split; [exact S|]. split.
+  - replace (k + 1 - 1) with k by lia. fold tdn. rewrite Htdn. rabs. reflexivity.
+  - eapply Desc_ext; [exact D2|]. clear D D1 D2 tt1 sg1.
+    intros a b Ha Hb. cbv beta.
+    assert (Mo : forall c, (ta (k - 1) c < Big)%R -> zsi + 2 <= k - 1 -> (ta (k - 1 - 1) c < Big)%R).
+    { intros c Hr Hq. eapply Rle_lt_trans; [|exact Hr]. apply t_ana_mono_z; [exact Hv|].
+      assert (IZR zsi + 2 <= IZR (k - 1))%R by (apply IZR_le in Hq; rewrite plus_IZR in Hq; exact Hq).
+      rewrite (minus_IZR (k - 1) 1). rabs. lra. }
+    assert (Reach : forall c, P0 (zsi + 1) c -> ColOK c -> (ta (k - 1) c < Big)%R ->
+                      P0 (k - 1) c \/ (DownSet (k - 1) c /\ k - 1 < k)).
+    { intros c Hc Hr Ht. destruct (Z.eq_dec (k - 1) (zsi + 1)) as [E|N]; [left; rewrite E; exact Hc|].
+      right. split; [|lia]. split; [exact Hr|]. split; [lia|]. apply Mo; [exact Ht | lia]. }
+    split.
+    + intros [[Y|(-> & -> & Q1 & _ & Q3)]|(-> & -> & Q1 & _ & Q3)].
+      * destruct Y as [Y|[Y Y']]; [left; exact Y | right; split; [exact Y | lia]].
+      * right. split; [|lia]. split; [left; auto|]. split; [lia | exact Q3].
+      * right. split; [|lia]. split; [right; auto|]. split; [lia | exact Q3].
+    + intros [Y|[(Hr & Hj & Ht) Hlt]]; [left; left; left; exact Y|].
+      destruct (Z.eq_dec a k) as [->|Nb]; [|left; left; right; split; [split; auto | lia]].
+      destruct Hr as [[-> Hd]|[-> Hd]].
+      * left. right. repeat (split; auto). apply Reach; auto. left; auto.
+      * right. repeat (split; auto). left. apply Reach; auto. right; auto.
+Qed.
+
+Lemma down_phase_desc trk grad M (P0 : Z -> Z -> Prop) td tt sg :
+  wf td -> shape td = [M] -> nz <= M -> P0 (zsi + 1) (xsi + 1) -> P0 (zsi + 1) xsi ->
+  Desc trk grad P0 tt sg ->
+  let r := down_phase dx dz grad nz slow vzero xsa xsi zsa zsi dxw dxe dzd (td, tt, sg) in
+  wf (fst (fst r)) /\ shape (fst (fst r)) = [M] /\
+  Desc trk grad (fun a b => P0 a b \/ DownSet a b) (snd (fst r)) (snd r).
+Proof.
+  intros W S HM A1 A2 D r. subst r. unfold down_phase. cbv zeta. cbn [fst snd].
+  rewrite pyrange_up. set (n := Z.to_nat (nz - (zsi + 2))).
+  match goal with |- context [for_list _ ?b ?s] =>
+    pose proof (for_list_pos (InvD trk grad M P0) b (fun x => x) n (zsi + 2) s) as L end.
+  rewrite map_id in L. replace (zsi + 2 + Z.of_nat n) with nz in L by lia.
+  destruct L as (W' & S' & _ & D').
+  - unfold InvD. cbn [fst snd]. split; [apply wf_set, W|]. split; [exact S|]. split.
+    + replace (zsi + 2 - 1) with (zsi + 1) by lia.
+      rewrite (get1_set_same td M (zsi + 1) _ W S ltac:(lia)). numR'. rewrite Hdzd, plus_IZR. ring.
+    + eapply Desc_ext; [exact D|]. intros a b _ _. split; [tauto|].
+      intros [Y|[(_ & Y & _) Y']]; [exact Y | lia].
+  - intros p x Hp Hx. apply down_step; auto; lia.
+  - split; [exact W'|]. split; [exact S'|]. eapply Desc_ext; [exact D'|].
+    intros a b Ha _. cbv beta. split; [tauto|]. intros [Y|Y]; [left; exact Y | right; split; [exact Y | lia]].
+Qed.
+
+(* ---------- up ---------- *)
+Definition InvU trk grad M (P0 : Z -> Z -> Prop) (k : Z) (st : arr R * arr R * arr Z) : Prop :=
+  wf (fst (fst st)) /\ shape (fst (fst st)) = [M] /\
+  get 0%R (fst (fst st)) [k + 1] = (vzero * (zsa - IZR (k + 1)) * dz)%R /\
+  Desc trk grad (fun a b => P0 a b \/ (UpSet a b /\ k < a)) (snd (fst st)) (snd st).
+
+Lemma up_step trk grad M (P0 : Z -> Z -> Prop) k st :
+  nz <= M -> 0 <= k <= zsi - 1 -> P0 zsi (xsi + 1) -> P0 zsi xsi ->
+  InvU trk grad M P0 k st ->
+  InvU trk grad M P0 (k - 1) (up_body dx dz grad slow vzero xsa zsa xsi dxw dxe (1 / dz)%R (1 / dz / dz)%R k st).
+Proof.
+  intros HM Hk A1 A2. destruct st as [[td tt] sg]. unfold InvU. cbn [fst snd]. intros (W & S & Htd & D).
+  cbv beta zeta delta [up_body]. cbn [fst snd].
+  change (@nofZ R NumR 0) with 0%R.
+  rewrite (Hslow k xsi) by lia.
+  set (v := nadd (get 0%R td [k + 1]) (nmul dz vzero)).
+  rewrite (get1_set_same td M k v W S ltac:(lia)).
+  rewrite (get1_set_other td M k (k + 1) v S ltac:(lia) ltac:(lia) ltac:(lia)).
+  assert (Kx : (IZR k + 1 <= IZR zsi)%R) by (z2r; lra).
+  assert (Ev : v = (vzero * Rabs (IZR k - zsa) * dz)%R).
+  { unfold v. numR'. rewrite Htd, plus_IZR. rabs. ring. }
+  assert (T1 : nsub v (nmul (nmul vzero (nabs (nsub (nofZ k) zsa))) dz) = 0%R) by (rewrite Ev; numR'; ring).
+  assert (T2 : nsub (get 0%R td [k + 1]) (nmul (nmul vzero (nabs (nadd (nsub (nofZ k) zsa) (nofZ 1)))) dz) = 0%R).
+  { rewrite Htd, plus_IZR. numR'. rabs. ring. }
+  rewrite T1, T2.
+  set (tdn := set td [k] v).
+  assert (Htdn : get 0%R tdn [k] = (vzero * Rabs (IZR k - zsa) * dz)%R).
+  { unfold tdn. rewrite (get1_set_same td M k v W S ltac:(lia)). exact Ev. }
+  assert (Hdzi : (0 <= 1 / dz)%R) by (unfold Rdiv; rewrite Rmult_1_l; left; apply Rinv_0_lt_compat; exact Hdz).
+  assert (Hmono : (Rabs (IZR (k + 1) - zsa) <= Rabs (IZR k - zsa))%R) by (rewrite plus_IZR; rabs; lra).
+  assert (Hsz : (0 <= IZR (-1) * (IZR k - zsa))%R) by lra.
+  (* first block: line xsi + 1 *)
+  rewrite (blk_z_eq grad (1 / dz)%R (1 / dz / dz)%R (xsi + 1) dxe (-1) 1 (k + 1) k tdn tt sg Hdzi
+             Hsz ltac:(rewrite plus_IZR; lra) Hmono Htdn (Desc_val trk grad _ tt sg (k + 1) (xsi + 1) D ltac:(lia) ltac:(lia))).
+  cbv zeta. cbn [fst snd].
+  pose proof (Desc_update trk grad _ tt sg k (xsi + 1) _ _ (-1) 1 D ltac:(lia) ltac:(lia)
+                (Desc_cond trk grad _ tt sg (k + 1) (xsi + 1) dxe D ltac:(lia) ltac:(lia))
+                ltac:(unfold sgn_of; destruct (Z.leb_spec k zsi); lia)
+                ltac:(unfold sgn_of; destruct (Z.leb_spec (xsi + 1) xsi); lia)) as D1.
+  match type of D1 with Desc _ _ _ ?t1 ?s1 => set (tt1 := t1) in *; set (sg1 := s1) in * end.
+  (* second block: line xsi *)
+  rewrite (blk_z_eq grad (1 / dz)%R (1 / dz / dz)%R xsi dxw (-1) (-1) (k + 1) k tdn tt1 sg1 Hdzi
+             Hsz ltac:(lra) Hmono Htdn (Desc_val trk grad _ tt1 sg1 (k + 1) xsi D1 ltac:(lia) ltac:(lia))).
+  cbv zeta. cbn [fst snd].
+  pose proof (Desc_update trk grad _ tt1 sg1 k xsi _ _ (-1) (-1) D1 ltac:(lia) ltac:(lia)
+                (Desc_cond trk grad _ tt1 sg1 (k + 1) xsi dxw D1 ltac:(lia) ltac:(lia))
+                ltac:(unfold sgn_of; destruct (Z.leb_spec k zsi); lia)
+                ltac:(unfold sgn_of; destruct (Z.leb_spec xsi xsi); lia)) as D2.
+  split; [apply wf_set, W|]. split; [exact S|]. split.
+  - replace (k - 1 + 1) with k by lia. fold tdn. rewrite Htdn. rabs. ring.
+  - eapply Desc_ext; [exact D2|]. clear D D1 D2 tt1 sg1.
+    intros a b Ha Hb. cbv beta.
+    assert (Mo : forall c, (ta (k + 1) c < Big)%R -> k + 1 <= zsi - 1 -> (ta (k + 1 + 1) c < Big)%R).
+    { intros c Hr Hq. eapply Rle_lt_trans; [|exact Hr]. apply t_ana_mono_z; [exact Hv|].
+      assert (IZR (k + 1) <= IZR zsi - 1)%R by (apply IZR_le in Hq; rewrite minus_IZR in Hq; exact Hq).
+      rewrite (plus_IZR (k + 1) 1). rabs. lra. }
+    assert (Reach : forall c, P0 zsi c -> ColOK c -> (ta (k + 1) c < Big)%R ->
+                      P0 (k + 1) c \/ (UpSet (k + 1) c /\ k < k + 1)).
+    { intros c Hc Hr Ht. destruct (Z.eq_dec (k + 1) zsi) as [E|N]; [left; rewrite E; exact Hc|].
+      right. split; [|lia]. split; [exact Hr|]. split; [lia|]. apply Mo; [exact Ht | lia]. }
+    split.
+    + intros [[Y|(-> & -> & Q1 & _ & Q3)]|(-> & -> & Q1 & _ & Q3)].
+      * destruct Y as [Y|[Y Y']]; [left; exact Y | right; split; [exact Y | lia]].
+      * right. split; [|lia]. split; [left; auto|]. split; [lia | exact Q3].
+      * right. split; [|lia]. split; [right; auto|]. split; [lia | exact Q3].
+    + intros [Y|[(Hr & Hj & Ht) Hlt]]; [left; left; left; exact Y|].
+      destruct (Z.eq_dec a k) as [->|Nb]; [|left; left; right; split; [split; auto | lia]].
+      destruct Hr as [[-> Hd]|[-> Hd]].
+      * left. right. repeat (split; auto). apply Reach; auto. left; auto.
+      * right. repeat (split; auto). left. apply Reach; auto. right; auto.
+Qed.
+
+Lemma up_phase_desc trk grad M (P0 : Z -> Z -> Prop) td tt sg :
+  wf td -> shape td = [M] -> nz <= M -> P0 zsi (xsi + 1) -> P0 zsi xsi ->
+  Desc trk grad P0 tt sg ->
+  let r := up_phase dx dz grad slow vzero xsa xsi zsa zsi dxw dxe dzu (td, tt, sg) in
+  wf (fst (fst r)) /\ shape (fst (fst r)) = [M] /\
+  Desc trk grad (fun a b => P0 a b \/ UpSet a b) (snd (fst r)) (snd r).
+Proof.
+  intros W S HM A1 A2 D r. subst r. unfold up_phase. cbv zeta. cbn [fst snd].
+  rewrite (pyrange_down (zsi - 1) (zsi - 1)). replace (zsi - 1 - (zsi - 1)) with 0 by lia.
+  set (n := Z.to_nat (zsi - 1 + 1)).
+  match goal with |- context [for_list _ ?b ?s] =>
+    pose proof (for_list_pos (fun q => InvU trk grad M P0 (zsi - 1 - q)) b (fun i => zsi - 1 - i) n 0 s) as L end.
+  cbv beta in L. replace (zsi - 1 - (0 + Z.of_nat n)) with (-1) in L by lia.
+  destruct L as (W' & S' & _ & D').
+  - unfold InvU. cbn [fst snd]. split; [apply wf_set, W|]. split; [exact S|]. split.
+    + replace (zsi - 1 - 0 + 1) with zsi by lia.
+      rewrite (get1_set_same td M zsi _ W S ltac:(lia)). numR'. rewrite Hdzu. ring.
+    + eapply Desc_ext; [exact D|]. intros a b _ _. split; [tauto|].
+      intros [Y|[(_ & Y & _) Y']]; [exact Y | lia].
+  - intros p x Hp Hx. replace (zsi - 1 - (p + 1)) with (zsi - 1 - p - 1) by lia. apply up_step; auto; lia.
+  - split; [exact W'|]. split; [exact S'|]. eapply Desc_ext; [exact D'|].
+    intros a b Ha _. cbv beta. split; [tauto|]. intros [Y|Y]; [left; exact Y | right; split; [exact Y | lia]].
+Qed.
+
+(* ---------- the corners of the source cell ---------- *)
+Lemma corner_fst grad i j (tt tg : arr R) :
+  fst (corner dx dz grad vzero xsa zsa i j tt tg) = set tt [i; j] (ta i j).
+Proof. unfold corner. cbv zeta. cbn [fst]. rewrite t_anad_fst. reflexivity. Qed.
+
+Lemma Desc_set_corner trk grad (P : Z -> Z -> Prop) tt sg i j :
+  Desc trk grad P tt sg -> 0 <= i < nz -> 0 <= j < nx -> Corner i j ->
+  Desc trk grad (fun a b => P a b \/ (a = i /\ b = j)) (set tt [i; j] (ta i j)) sg.
+Proof.
+  intros (W & S & Dec & Hget & Hsg) Hi Hj Hc.
+  assert (I0 : inb tt [i; j] = true) by (eapply inb2_true; eauto).
+  split; [apply wf_set, W|]. split; [exact S|]. split; [|split].
+  - intros a b Ha Hb. destruct (Dec a b Ha Hb) as [Y|N]; [left; left; exact Y|].
+    destruct (Z.eq_dec a i) as [->|Na]; [destruct (Z.eq_dec b j) as [->|Nb]|].
+    + left. right. auto.
+    + right. intros [Y|(_ & E)]; [exact (N Y) | exact (Nb E)].
+    + right. intros [Y|(E & _)]; [exact (N Y) | exact (Na E)].
+  - intros a b Ha Hb. destruct (list_eq_dec_Z [i; j] [a; b]) as [E|N].
+    + injection E as <- <-. rewrite get_set_same by assumption. split; [reflexivity|].
+      intros Hn. exfalso. apply Hn. right. auto.
+    + rewrite get_set_other; [| exact I0 | eapply inb2_true; eauto | exact N].
+      destruct (Hget a b Ha Hb) as [G1 G2]. apply idx2_neq in N. split.
+      * intros [Y|E]; [exact (G1 Y) | exfalso; apply N; exact E].
+      * intros Hn. apply G2. intros Y. apply Hn. left. exact Y.
+  - intros Hg. destruct (Hsg Hg) as (Eg & Ws & Ss & Hs). split; [exact Eg|]. split; [exact Ws|]. split; [exact Ss|].
+    intros a b Ha Hb [Y|[-> ->]] Hnc; [apply Hs; assumption | contradiction].
+Qed.
+
+Lemma corners_desc trk grad tt tg sg :
+  wf tt -> shape tt = [nz; nx] ->
+  (forall i j, 0 <= i < nz -> 0 <= j < nx -> get 0%R tt [i; j] = Big) ->
+  (trk = true -> grad = true /\ wf sg /\ shape sg = [nz; nx; 2]) ->
+  Desc trk grad Corner (fst (init_corners dx dz grad vzero xsa xsi zsa zsi tt tg)) sg.
+Proof.
+  intros W S Hbig Hsg.
+  assert (D : Desc trk grad (fun _ _ => False) tt sg).
+  { split; [exact W|]. split; [exact S|]. split; [|split].
+    - intros; right; tauto.
+    - intros i j Hi Hj. split; [tauto | intros _; apply Hbig; assumption].
+    - intros Hg. destruct (Hsg Hg) as (? & ? & ?). repeat (split; [assumption|]). intros; tauto. }
+  unfold init_corners. cbv zeta. rewrite !corner_fst.
+  assert (C1 : Corner zsi xsi) by (unfold Corner; lia).
+  assert (C2 : Corner (zsi + 1) xsi) by (unfold Corner; lia).
+  assert (C3 : Corner zsi (xsi + 1)) by (unfold Corner; lia).
+  assert (C4 : Corner (zsi + 1) (xsi + 1)) by (unfold Corner; lia).
+  pose proof (Desc_set_corner trk grad _ _ _ zsi xsi D ltac:(lia) ltac:(lia) C1) as D1.
+  pose proof (Desc_set_corner trk grad _ _ _ (zsi + 1) xsi D1 ltac:(lia) ltac:(lia) C2) as D2.
+  pose proof (Desc_set_corner trk grad _ _ _ zsi (xsi + 1) D2 ltac:(lia) ltac:(lia) C3) as D3.
+  pose proof (Desc_set_corner trk grad _ _ _ (zsi + 1) (xsi + 1) D3 ltac:(lia) ltac:(lia) C4) as D4.
+  eapply Desc_ext; [exact D4|]. intros a b _ _. unfold Corner. cbv beta. lia.
+Qed.
+
+(* ---------- the whole initialisation ---------- *)
+Definition InitSet (i j : Z) : Prop := Corner i j \/ EastSet i j \/ WestSet i j \/ DownSet i j \/ UpSet i j.
+
+Theorem init_desc trk grad tt tg sg :
+  wf tt -> shape tt = [nz; nx] ->
+  (forall i j, 0 <= i < nz -> 0 <= j < nx -> get 0%R tt [i; j] = Big) ->
+  (trk = true -> grad = true /\ wf sg /\ shape sg = [nz; nx; 2]) ->
+  Desc trk grad InitSet
+    (fst (fst (fteik2d_p2 dx dz grad 2 nx nz slow tt tg sg vzero xsa xsi zsa zsi)))
+    (snd (fteik2d_p2 dx dz grad 2 nx nz slow tt tg sg vzero xsa xsi zsa zsi)).
+Proof.
+  intros W S Hbig Hsg.
+  rewrite fteik2d_p2_decompose. change (2 =? 2) with true. cbv iota zeta. cbn [fst snd].
+  change (nabs (nsub zsa (nofZ zsi))) with (Rabs (zsa - IZR zsi)).
+  change (nabs (nsub xsa (nofZ xsi))) with (Rabs (xsa - IZR xsi)).
+  rewrite (Rabs_pos_eq (zsa - IZR zsi)), (Rabs_pos_eq (xsa - IZR xsi)) by lra.
+  rewrite <- Hdzu, <- Hdxw.
+  change (nsub (nofZ 1) dzu) with (1 - dzu)%R. change (nsub (nofZ 1) dxw) with (1 - dxw)%R.
+  replace (1 - dzu)%R with dzd by (rewrite Hdzu, Hdzd; ring).
+  replace (1 - dxw)%R with dxe by (rewrite Hdxw, Hdxe; ring).
+  set (M := Z.max nz nx).
+  assert (W0 : wf (full [M] (@Big R NumR))) by (apply wf_full; repeat constructor; lia).
+  pose proof (corners_desc trk grad tt tg sg W S Hbig Hsg) as D0.
+  set (c := init_corners dx dz grad vzero xsa xsi zsa zsi tt tg) in *.
+  assert (C1 : Corner zsi xsi) by (unfold Corner; lia).
+  assert (C2 : Corner (zsi + 1) xsi) by (unfold Corner; lia).
+  assert (C3 : Corner zsi (xsi + 1)) by (unfold Corner; lia).
+  assert (C4 : Corner (zsi + 1) (xsi + 1)) by (unfold Corner; lia).
+  destruct (east_phase_desc trk grad M Corner (full [M] Big) (fst c) sg W0 eq_refl ltac:(lia) C4 C3 D0) as (W1 & S1 & D1).
+  set (st1 := east_phase dx dz grad nx slow vzero xsa xsi zsa zsi dzu dzd dxe (full [M] Big, fst c, sg)) in *.
+  destruct (west_phase_desc trk grad M _ (fst (fst st1)) (snd (fst st1)) (snd st1) W1 S1 ltac:(lia)
+              (or_introl C2) (or_introl C1) D1) as (W2 & S2 & D2).
+  change (west_phase dx dz grad slow vzero xsa xsi zsa zsi dzu dzd dxw (fst (fst st1), snd (fst st1), snd st1))
+    with (west_phase dx dz grad slow vzero xsa xsi zsa zsi dzu dzd dxw st1) in *.
+  set (st2 := west_phase dx dz grad slow vzero xsa xsi zsa zsi dzu dzd dxw st1) in *.
+  assert (W2' : wf (fill (fst (fst st2)) (@Big R NumR))).
+  { unfold fill. rewrite S2. apply wf_full. repeat constructor; lia. }
+  assert (S2' : shape (fill (fst (fst st2)) (@Big R NumR)) = [M]) by (unfold fill; rewrite S2; reflexivity).
+  destruct (down_phase_desc trk grad M _ _ (snd (fst st2)) (snd st2) W2' S2' ltac:(lia)
+              (or_introl (or_introl C4)) (or_introl (or_introl C2)) D2) as (W3 & S3 & D3).
+  set (st3 := down_phase dx dz grad nz slow vzero xsa xsi zsa zsi dxw dxe dzd
+                (fill (fst (fst st2)) Big, snd (fst st2), snd st2)) in *.
+  destruct (up_phase_desc trk grad M _ (fst (fst st3)) (snd (fst st3)) (snd st3) W3 S3 ltac:(lia)
+              (or_introl (or_introl (or_introl C3))) (or_introl (or_introl (or_introl C1))) D3) as (_ & _ & D4).
+  change (up_phase dx dz grad slow vzero xsa xsi zsa zsi dxw dxe dzu (fst (fst st3), snd (fst st3), snd st3))
+    with (up_phase dx dz grad slow vzero xsa xsi zsa zsi dxw dxe dzu st3) in D4.
+  eapply Desc_ext; [exact D4|]. intros a b _ _. unfold InitSet. cbv beta. tauto.
+Qed.
 End Homog.
+
+(* ========================================================================================== *)
+(* C. C01: the source-line initialisation is exact in a homogeneous medium                      *)
+(* ========================================================================================== *)
+(* the nodes written by the initialisation, with the fractional distances as the code computes them *)
+Definition init_set (dz dx vzero zsa xsa : R) (zsi xsi : Z) (i j : Z) : Prop :=
+  let dzu := Rabs (zsa - IZR zsi) in let dzd := (1 - dzu)%R in
+  let dxw := Rabs (xsa - IZR xsi) in let dxe := (1 - dxw)%R in
+  InitSet dz dx vzero zsa xsa zsi xsi dzu dzd dxw dxe i j.
+
+(* ... spelled out: the four corners of the source cell; on the two rows of the source cell (row zsi + 1 only if
+   dzd > 0, row zsi only if dzu > 0) the nodes east and west of the cell as long as the previous node of the row is
+   below Big; likewise on the two columns of the source cell *)
+Lemma init_set_spelled_out dz dx vzero zsa xsa zsi xsi i j :
+  let dzu := Rabs (zsa - IZR zsi) in let dzd := (1 - dzu)%R in
+  let dxw := Rabs (xsa - IZR xsi) in let dxe := (1 - dxw)%R in
+  let ta a b := t_ana a b dz dx zsa xsa vzero in
+  let row_ok := (i = zsi + 1 /\ (0 < dzd)%R) \/ (i = zsi /\ (0 < dzu)%R) in
+  let col_ok := (j = xsi + 1 /\ (0 < dxe)%R) \/ (j = xsi /\ (0 < dxw)%R) in
+  init_set dz dx vzero zsa xsa zsi xsi i j <->
+    (zsi <= i <= zsi + 1 /\ xsi <= j <= xsi + 1) \/
+    (row_ok /\ xsi + 2 <= j /\ (ta i (j - 1) < Big)%R) \/
+    (row_ok /\ j <= xsi - 1 /\ (ta i (j + 1) < Big)%R) \/
+    (col_ok /\ zsi + 2 <= i /\ (ta (i - 1) j < Big)%R) \/
+    (col_ok /\ i <= zsi - 1 /\ (ta (i + 1) j < Big)%R).
+Proof. reflexivity. Qed.
+
+Theorem fteik2d_init_homogeneous_exact nz nx dz dx grad slow tt ttgrad ttsgn vzero zsa xsa zsi xsi :
+  (0 < dz)%R -> (0 < dx)%R -> (0 <= vzero)%R ->
+  0 <= zsi < nz - 1 -> 0 <= xsi < nx - 1 ->
+  (IZR zsi <= zsa <= IZR zsi + 1)%R -> (IZR xsi <= xsa <= IZR xsi + 1)%R ->
+  (forall i j, 0 <= i < nz - 1 -> 0 <= j < nx - 1 -> get 0%R slow [i; j] = vzero) ->
+  wf tt -> shape tt = [nz; nx] ->
+  (forall i j, 0 <= i < nz -> 0 <= j < nx -> get 0%R tt [i; j] = Big) ->
+  let r := fteik2d_p2 dx dz grad 2 nx nz slow tt ttgrad ttsgn vzero xsa xsi zsa zsi in
+  forall i j, 0 <= i < nz -> 0 <= j < nx ->
+    (init_set dz dx vzero zsa xsa zsi xsi i j \/ ~ init_set dz dx vzero zsa xsa zsi xsi i j) /\
+    (init_set dz dx vzero zsa xsa zsi xsi i j ->
+       get 0%R (fst (fst r)) [i; j] = t_ana i j dz dx zsa xsa vzero) /\
+    (~ init_set dz dx vzero zsa xsa zsi xsi i j -> get 0%R (fst (fst r)) [i; j] = Big).
+Proof.
+  intros Hdz Hdx Hv Hzsi Hxsi Hzsa Hxsa Hslow W S Hbig r i j Hi Hj.
+  pose proof (init_desc nz nx dz dx vzero zsa xsa zsi xsi Hdz Hdx Hv Hzsi Hxsi Hzsa Hxsa
+                (Rabs (zsa - IZR zsi)) (1 - Rabs (zsa - IZR zsi))%R (Rabs (xsa - IZR xsi)) (1 - Rabs (xsa - IZR xsi))%R
+                slow
+                ltac:(rewrite Rabs_pos_eq by lra; reflexivity) ltac:(rewrite Rabs_pos_eq by lra; ring)
+                ltac:(rewrite Rabs_pos_eq by lra; reflexivity) ltac:(rewrite Rabs_pos_eq by lra; ring)
+                Hslow false grad tt ttgrad ttsgn W S Hbig ltac:(intros E; discriminate E)) as D.
+  fold r in D. destruct D as (_ & _ & Dec & Hget & _).
+  split; [exact (Dec i j Hi Hj)|]. exact (Hget i j Hi Hj).
+Qed.
+
+(* every node is either exact or untouched *)
+Corollary fteik2d_init_homogeneous_exact_or_Big nz nx dz dx grad slow tt ttgrad ttsgn vzero zsa xsa zsi xsi :
+  (0 < dz)%R -> (0 < dx)%R -> (0 <= vzero)%R ->
+  0 <= zsi < nz - 1 -> 0 <= xsi < nx - 1 ->
+  (IZR zsi <= zsa <= IZR zsi + 1)%R -> (IZR xsi <= xsa <= IZR xsi + 1)%R ->
+  (forall i j, 0 <= i < nz - 1 -> 0 <= j < nx - 1 -> get 0%R slow [i; j] = vzero) ->
+  wf tt -> shape tt = [nz; nx] ->
+  (forall i j, 0 <= i < nz -> 0 <= j < nx -> get 0%R tt [i; j] = Big) ->
+  let r := fteik2d_p2 dx dz grad 2 nx nz slow tt ttgrad ttsgn vzero xsa xsi zsa zsi in
+  forall i j, 0 <= i < nz -> 0 <= j < nx ->
+    get 0%R (fst (fst r)) [i; j] = t_ana i j dz dx zsa xsa vzero \/ get 0%R (fst (fst r)) [i; j] = Big.
+Proof.
+  intros Hdz Hdx Hv Hzsi Hxsi Hzsa Hxsa Hslow W S Hbig r i j Hi Hj.
+  destruct (fteik2d_init_homogeneous_exact nz nx dz dx grad slow tt ttgrad ttsgn vzero zsa xsa zsi xsi
+              Hdz Hdx Hv Hzsi Hxsi Hzsa Hxsa Hslow W S Hbig i j Hi Hj) as ([Y|N] & G1 & G2); [left|right]; auto.
+Qed.
+
+(* the sign array (grad = true): every node written by a loop carries the signs of that loop,
+   -1 at and below the source's cell index, +1 above *)
+Theorem fteik2d_init_homogeneous_signs nz nx dz dx slow tt ttgrad ttsgn vzero zsa xsa zsi xsi :
+  (0 < dz)%R -> (0 < dx)%R -> (0 <= vzero)%R ->
+  0 <= zsi < nz - 1 -> 0 <= xsi < nx - 1 ->
+  (IZR zsi <= zsa <= IZR zsi + 1)%R -> (IZR xsi <= xsa <= IZR xsi + 1)%R ->
+  (forall i j, 0 <= i < nz - 1 -> 0 <= j < nx - 1 -> get 0%R slow [i; j] = vzero) ->
+  wf tt -> shape tt = [nz; nx] ->
+  (forall i j, 0 <= i < nz -> 0 <= j < nx -> get 0%R tt [i; j] = Big) ->
+  wf ttsgn -> shape ttsgn = [nz; nx; 2] ->
+  let r := fteik2d_p2 dx dz true 2 nx nz slow tt ttgrad ttsgn vzero xsa xsi zsa zsi in
+  forall i j, 0 <= i < nz -> 0 <= j < nx ->
+    init_set dz dx vzero zsa xsa zsi xsi i j -> ~ (zsi <= i <= zsi + 1 /\ xsi <= j <= xsi + 1) ->
+    get 0 (snd r) [i; j; 0] = (if i <=? zsi then -1 else 1) /\
+    get 0 (snd r) [i; j; 1] = (if j <=? xsi then -1 else 1).
+Proof.
+  intros Hdz Hdx Hv Hzsi Hxsi Hzsa Hxsa Hslow W S Hbig Ws Ss r i j Hi Hj Hset Hnc.
+  pose proof (init_desc nz nx dz dx vzero zsa xsa zsi xsi Hdz Hdx Hv Hzsi Hxsi Hzsa Hxsa
+                (Rabs (zsa - IZR zsi)) (1 - Rabs (zsa - IZR zsi))%R (Rabs (xsa - IZR xsi)) (1 - Rabs (xsa - IZR xsi))%R
+                slow
+                ltac:(rewrite Rabs_pos_eq by lra; reflexivity) ltac:(rewrite Rabs_pos_eq by lra; ring)
+                ltac:(rewrite Rabs_pos_eq by lra; reflexivity) ltac:(rewrite Rabs_pos_eq by lra; ring)
+                Hslow true true tt ttgrad ttsgn W S Hbig ltac:(intros _; auto)) as D.
+  fold r in D. destruct D as (_ & _ & _ & _ & Hsg). destruct (Hsg eq_refl) as (_ & _ & _ & Hs).
+  exact (Hs i j Hi Hj Hset Hnc).
+Qed.
